@@ -219,6 +219,9 @@ impl SrtlaConnection {
     // RttTracker::queue_building_suspected: float comparisons over the RTT floor windows (outside the subset)
     #[verifier::external_body]
     pub fn queue_building_suspected(&self) -> (r: bool) ensures r == self.spec_queue_building() { unimplemented!() }
+    // BitrateTracker::calculate: float division; writes the bitrate tracker only (frame assumption, syntactic audit)
+    #[verifier::external_body]
+    pub fn calculate_bitrate(&mut self, now_ms: u64) ensures final(self).same_except_bitrate(old(self)) { unimplemented!() }
 }
 '''
 
@@ -553,7 +556,7 @@ GATE_ENSURES = [
     'forall|i: int| 0 <= i < old(conns).len() ==> (#[trigger] final(conns)[i]).latch_wf()',
     C('C12.select.apply_stall_gate.accounting_untouched', '''forall|i: int| 0 <= i < old(conns).len() ==> #[trigger] old(conns)[i].same_acct(&final(conns)[i])
             && final(conns)[i].conn_timeout_ms == config.conn_timeout_ms && final(conns)[i].quality_cache == old(conns)[i].quality_cache'''),
-    C('C12.select.apply_stall_gate.guard_off_clears_every_flag_and_latch', '''!config.stall_deselect ==> forall|i: int| 0 <= i < old(conns).len() ==> !(#[trigger] final(conns)[i]).stall_gated
+    C('C10+C12.select.apply_stall_gate.guard_off_clears_every_flag_and_latch', '''!config.stall_deselect ==> forall|i: int| 0 <= i < old(conns).len() ==> !(#[trigger] final(conns)[i]).stall_gated
             && !final(conns)[i].silence_pulled && final(conns)[i].stall_latched_since_ms == 0 && final(conns)[i].stall_recovery_since_ms == 0'''),
     C('C03.select.apply_stall_gate.never_gates_the_last_usable_link', '''(exists|i: int| 0 <= i < final(conns).len() && (#[trigger] final(conns)[i]).usable(current_time_ms))
             ==> exists|j: int| 0 <= j < final(conns).len() && (#[trigger] final(conns)[j]).usable(current_time_ms) && !final(conns)[j].stall_gated'''),
@@ -564,7 +567,7 @@ _G1 = ['c_nx <= conns.len()', 'conns.len() == old(conns).len()',
        'forall|j: int| 0 <= j < c_nx ==> (#[trigger] conns[j]).same_except_timeout(&old(conns)[j]) && conns[j].conn_timeout_ms == config.conn_timeout_ms',
        'forall|j: int| c_nx <= j < conns.len() ==> #[trigger] conns[j] == old(conns)[j]']
 _G2 = ['c_nx <= conns.len()', 'conns.len() == old(conns).len()',
-       C('C12.select.apply_stall_gate.guard_off_clears_every_flag_and_latch', '''forall|j: int| 0 <= j < c_nx ==> (#[trigger] conns[j]).same_except_stall_clear(&old(conns)[j]) && conns[j].conn_timeout_ms == config.conn_timeout_ms
+       C('C10+C12.select.apply_stall_gate.guard_off_clears_every_flag_and_latch', '''forall|j: int| 0 <= j < c_nx ==> (#[trigger] conns[j]).same_except_stall_clear(&old(conns)[j]) && conns[j].conn_timeout_ms == config.conn_timeout_ms
                 && !conns[j].stall_gated && !conns[j].silence_pulled && conns[j].stall_latched_since_ms == 0 && conns[j].stall_recovery_since_ms == 0'''),
        'forall|j: int| c_nx <= j < conns.len() ==> (#[trigger] conns[j]).same_except_timeout(&old(conns)[j]) && conns[j].conn_timeout_ms == config.conn_timeout_ms']
 _G3 = ['c_nx <= conns.len()', 'conns.len() == old(conns).len()', 'current_time_ms > 0', 'gate_pre_ok(old(conns)@)',
@@ -648,7 +651,7 @@ IDX_ENSURES = [
     'forall|i: int| 0 <= i < old(conns).len() ==> (#[trigger] final(conns)[i]).latch_wf()',
     C('C12.select.select_connection_idx.decision_never_changes_liveness_or_accounting', 'forall|i: int| 0 <= i < old(conns).len() ==> #[trigger] old(conns)[i].same_acct(&final(conns)[i])'),
     C('C04.select.select_connection_idx.result_is_eligible', 'r is Some ==> r.unwrap() < final(conns).len() && final(conns)[r.unwrap() as int].eligible(current_time_ms)'),
-    C('C12.select.select_connection_idx.guard_off_clears_every_flag_and_latch', '''!config.stall_deselect ==> forall|i: int| 0 <= i < old(conns).len() ==> !(#[trigger] final(conns)[i]).stall_gated
+    C('C10+C12.select.select_connection_idx.guard_off_clears_every_flag_and_latch', '''!config.stall_deselect ==> forall|i: int| 0 <= i < old(conns).len() ==> !(#[trigger] final(conns)[i]).stall_gated
             && !final(conns)[i].silence_pulled && final(conns)[i].stall_latched_since_ms == 0 && final(conns)[i].stall_recovery_since_ms == 0'''),
 ]
 IDX_SPLICES = [
